@@ -76,6 +76,42 @@ func genCase(cr *vh.Rng) *gqlgen.Case {
 		gqlgen.InjectFailure(cr, rr.Reached, rr.Enums)
 		c.Origin = "generated:single-failure"
 	}
+	if cr.Chance(12) {
+		// some of the ordinary failures are context.Canceled itself, handed back by a call with a
+		// context of its own while the request is alive (/repo 151d367)
+		var walk func(o *gqlgen.Obj, seen map[int64]bool)
+		walk = func(o *gqlgen.Obj, seen map[int64]bool) {
+			if o == nil || seen[o.ID] {
+				return
+			}
+			seen[o.ID] = true
+			var vis func(v *gqlgen.Val)
+			vis = func(v *gqlgen.Val) {
+				if v == nil {
+					return
+				}
+				if v.O != nil {
+					walk(v.O, seen)
+				}
+				for _, e := range v.L {
+					vis(e)
+				}
+			}
+			keys := make([]string, 0, len(o.Res))
+			for k := range o.Res {
+				keys = append(keys, k)
+			}
+			sort.Strings(keys)
+			for _, k := range keys {
+				oc := o.Res[k]
+				if oc.Fail == "err" && cr.Chance(60) {
+					oc.Fail = "cancel"
+				}
+				vis(oc.Val)
+			}
+		}
+		walk(c.Data.Root, map[int64]bool{})
+	}
 	for k := 0; k < 3; k++ {
 		var ch []int
 		for i := 0; i < 24; i++ {
